@@ -15,11 +15,11 @@ _cache: Dict[int, dict] = {}
 
 def facts(prog: Program) -> dict:
     k = id(prog)
-    if k not in _cache:
+    if k not in _cache or _cache[k].get("prog") is not prog:      # ids are re-used after garbage collection: compare the object
         with open(os.path.join(VERIF, "tables", "eo_sites.json"), encoding="utf-8") as fh:
             exc = json.load(fh)["exceptions"]
         _cache.clear()
-        _cache[k] = {"sites": eo.sites(prog), "exceptions": exc, "kr": eo.khatrirao_calls(prog)}
+        _cache[k] = {"prog": prog, "sites": eo.sites(prog), "exceptions": exc, "kr": eo.khatrirao_calls(prog)}
     return _cache[k]
 
 
